@@ -145,6 +145,9 @@ void enumerate_ranges(Ctx& c, int N) {
     else {  // empty argument = cursor position: only the unambiguous cases are asserted (DESIGN C20)
       if (a.start < b.start && b.start < a.finish) chk(a.Contains(b), true, "Contains-cursor-inside", a, b);
       if (b.start < a.start || b.start > a.finish) chk(a.Contains(b), false, "Contains-cursor-outside", a, b);
+      // on the receiver's boundary the end-point reading and the cursor reading differ and the property does not choose; what is
+      // asserted is that the two overloads agree: an empty range [p,p) is contained exactly when the position p is
+      chk(a.Contains(b), a.Contains(b.start), "Contains-cursor-vs-position", a, b);
     }
     // duals and symmetry
     chk(a.IsBefore(b), b.IsAfter(a), "dual-Before/After", a, b);
